@@ -7,8 +7,8 @@ Import ListNotations.
 
 (* Format.  For every frame list in the domain of the Akamai format (wf_frames: the frames the
    fingerprint reads are well-sized per RFC 7540, pseudo-header fields are the four request ones, the
-   first header block - if one has started - is complete: block_complete) and outside the two known
-   defect classes (empty first SETTINGS; non-UTF-8 pseudo-header value), the code's fingerprint is S|WU|P|PS of AkamaiSpec.fp:
+   first header block - if one has started - is complete: block_complete) and outside the one known
+   defect class (empty first SETTINGS), the code's fingerprint is S|WU|P|PS of AkamaiSpec.fp:
    all settings ids (known or unknown) and values in wire order, reserved bits masked, `00`/`0`
    defaults, exclusive bit, 31-bit dependency, weight+1, pseudo-header order of the whole first header
    block (padding and priority fields stripped, CONTINUATION fragments joined: fix 89b3393). *)
@@ -109,8 +109,10 @@ Theorem C17_former_witnesses_agree :
          [w_headers_priority; w_headers_padded; w_continued].
 Proof. exact former_witnesses_agree. Qed.
 Print Assumptions C17_former_witnesses_agree.
-Theorem C17_known_nonutf8_pseudo_refuted :
-  exists frames, wf_frames frames = true /\ k_nonutf8 frames = true /\
-                 extract_akamai_fingerprint frames <> Val (fp frames).
-Proof. exact Known_nonutf8_refuted. Qed.
-Print Assumptions C17_known_nonutf8_pseudo_refuted.
+(* the witness of the former non-UTF-8 class (:path with value /\xff, repaired: only the header NAME has to
+   be text) is inside the domain and agrees: m,p,s *)
+Theorem C17_nonutf8_former_witness_agrees :
+  wf_frames w_nonutf8 = true /\ known w_nonutf8 = false /\
+  extract_akamai_fingerprint w_nonutf8 = Val (fp w_nonutf8) /\ fp w_nonutf8 = Some (bs "3:100|00|0|m,p,s").
+Proof. exact nonutf8_former_witness_agrees. Qed.
+Print Assumptions C17_nonutf8_former_witness_agrees.
